@@ -149,8 +149,11 @@ def extra_mt_stress(tier, seed):
     handled after its sender was told Err(Send) (or a tell Err(Timeout)), per-sender order, an ask's
     Ok value is the one computed for that very request, every operation returns, on_start first /
     on_stop last and once, the killed flag of the result is the one on_stop saw and is true only if
-    a kill was accepted, ids unique.  A supporting test: the model's schedules are those of one
-    thread."""
+    a kill was accepted, ids unique.  A third of the rounds are calm (no client stops or kills; the
+    actors - some with an on_run that stays enabled - end after the clients are done, by stop() or
+    by losing every reference): then every send must have succeeded, everything accepted must have
+    been handled before on_stop(false), the actor must end, and upgrade must fail afterwards (C07).
+    A supporting test: the model's schedules are those of one thread."""
     return _mt_stress((), tier, seed, "a model-free rule failed under a multi-thread random workload (see the probe output)")
 
 
@@ -486,6 +489,7 @@ PROPS = {
         props_file="Props/C07.v",
         families=[("core", NONE, 250), ("hostile", NONE, 50), ("exh", NONE, 3), ("endings", NONE, 1)],
         projection="C07", monitors=["C07"],
+        extra=[extra_mt_stress],
         level_note="Causes of ending, no spontaneous ending and reference accounting are proved; 'eventually ends' is proved as a ranking argument (the rank never rises, every enabled step of the actor lowers it or enters on_stop, a step is enabled unless the hook is blocked); that an enabled step is eventually taken is the fairness of the tokio scheduler (a woken task is eventually polled), which is outside the model (partial).",
     ),
     "C11": dict(
